@@ -1256,6 +1256,16 @@ class Step(Node):
         )
         self.db.executemany("DELETE FROM dynamic_dep WHERE i = ?", ((row[0],) for row in rows))
         self.del_sources([self.graph.node_from_row(i, kind, label) for _, i, label, kind in rows])
+        # The steps producing the dropped inputs lose a consumer, two dependency hops away,
+        # so their _implied_need and _tail_time may have to come down.
+        # The dependency triggers only flag the end points of the deleted edge,
+        # and PROPAGATE_CHECK_AFTER only follows edges that still exist.
+        # (Compare RECURSIVE_CHECK_AFTER_SOURCES, which does the same when a step is detached.)
+        self.db.executemany(
+            "UPDATE step SET _check_after = 1 "
+            "WHERE node IN (SELECT source FROM dependency WHERE sink = ?)",
+            ((i,) for _, i, _, _ in rows),
+        )
 
         # Drop dynamic environment variables.
         self.db.execute("DELETE FROM env_var WHERE node = ? AND dynamic = 1", (self.i,))
